@@ -68,7 +68,9 @@ def apply_docmod(doc, mod):
     doc = copy.deepcopy(doc)
     path = mod["path"]
     parent = get_path(doc, path[:-1])
-    if "delete" in mod:
+    if "truncate" in mod:
+        del parent[path[-1]:]
+    elif "delete" in mod:
         del parent[path[-1]]
     elif "rename" in mod:
         parent[mod["rename"]] = parent.pop(path[-1])
@@ -246,8 +248,9 @@ def required_mods(fmt, doc):
             if s == "media":
                 P("media", "discnum"); P("media", "totaldiscs")
     else:
+        # a discinfo has no keys: "a required line is missing" = the file is cut before its third line
         for i in range(3):
-            out.append({"path": [i], "delete": True})
+            out.append({"path": [i], "truncate": True})
     return out
 
 
